@@ -117,6 +117,23 @@ pub fn run(cfg: &Cfg) {
                 let k4 = PublicKey::from_ed25519_with_keyid_hash_algorithms(p.as_bytes().to_vec(), sha2.clone()).unwrap();
                 sink.oracle(keyid_hex(&k4) == id, "raw-bytes ed25519 constructor gives another id for the same description", &replay);
                 keyid_case(&mut sink, &PublicKey::from_ed25519(p.as_bytes().to_vec()).unwrap(), "raw-no-algs");
+                // derivation from the private key given as seed + public key (64 bytes): the same key,
+                // the id of the description without a hash-algorithm list
+                if k.pk8.len() == 83 && k.pk8[..16] == [0x30, 0x51, 0x02, 0x01, 0x01, 0x30, 0x05, 0x06, 0x03, 0x2b, 0x65, 0x70, 0x04, 0x22, 0x04, 0x20] {
+                    let mut raw = k.pk8[16..48].to_vec();
+                    raw.extend_from_slice(&k.pk8[51..83]);
+                    match guarded(move || in_toto::crypto::PrivateKey::from_ed25519(&raw)) {
+                        Ok(Ok(sk)) => {
+                            let want = PublicKey::from_ed25519(p.as_bytes().to_vec()).unwrap();
+                            sink.oracle(sk.public() == &want && keyid_hex(sk.public()) == keyid_hex(&want), "the key derived from an ed25519 seed + public key is not the key its public part describes", &replay);
+                            keyid_case(&mut sink, sk.public(), "from-seed");
+                            // and it signs for that key
+                            let sig = sk.sign(b"itv").ok();
+                            sink.oracle(sig.as_ref().map_or(false, |s| p.verify(b"itv", s).is_ok() && s.key_id() == sk.public().key_id()), "a signature by the key derived from seed + public key does not verify under the public key", &replay);
+                        }
+                        _ => sink.oracle(false, "PrivateKey::from_ed25519 rejects a valid seed + public key", &replay),
+                    }
+                }
             }
             KeyType::Ecdsa => {
                 let k4 = PublicKey::from_ecdsa_with_keyid_hash_algorithms(p.as_bytes().to_vec(), sha2.clone()).unwrap();
